@@ -53,6 +53,8 @@ def strategy(tier):
         "collectors": st.lists(st.integers(1, 3), min_size=1, max_size=3),
         "submitter_rows": st.lists(ROW, max_size=2),
         "schedule": gen.schedules(240),
+        # batch numbers start here (batch ids grow with every round and resubmission: two- and three-digit ids are normal)
+        "batch_base": st.sampled_from([0, 1, 1, 7, 9, 98]),
         # a third of the cases continue the way resubmit-jobs does: the consolidated file is rewritten without the rows of
         # the jobs to rerun (clear_results_for_resubmission), then a second generation of runners and collectors works on it
         "epoch2": st.one_of(st.none(), st.none(), st.fixed_dictionaries({
@@ -266,7 +268,7 @@ def run_case(case):
             def fn():
                 for i, r in enumerate(rows):
                     result = make_result(f"{tag}b{b}r{i}", r)
-                    ResultsAggregator.append(out, result, batch_id=b)
+                    ResultsAggregator.append(out, result, batch_id=b + case.get("batch_base", 0))
                     appended.append(key(result))
                     events.append(("append", b))
                 raise SystemExit(0)
